@@ -59,6 +59,10 @@ func (S *LevelDbStore) GetCertRevocationStatus(issuer *pkix.RDNSequence, certSer
 	s := issuer.String() + "_" + certSerial.String()
 	hash := hashing.Sum64(s)
 	revokedCertBytes, err := S.Db.Get(hash, nil)
+	if err != nil && err != leveldb.ErrNotFound {
+		//only a missing key means "not revoked", any other failure must not be reported as such
+		return nil, fmt.Errorf("could not read revocation status from store: %v", err)
+	}
 	revoked := false
 	var revokedCert *pkix.RevokedCertificate
 	if err == nil {
